@@ -1,4 +1,7 @@
+import SqlObjVerif.Lemmas.CodecXDtA
 import SqlObjVerif.Lemmas.CodecXDtB
+import SqlObjVerif.Lemmas.CodecXDtA2
+import SqlObjVerif.Lemmas.CodecXDtB2
 /-!
 # CodecX — the translated DateTime / Date / Time validators = the hand model, for the three formats col.py uses
 -/
